@@ -36,7 +36,41 @@ KINDS = ("station", "base", "request", "reposition")
 MAX_STEPS = 450
 
 
+GRAZING_STEPS = (60, 300, 600)
+
+
+def grazing_cells(only_step=None) -> List[str]:
+    """destinations on one straight line out of site A whose distance is a whole number of steps' worth of driving (at the straight-line
+    network's 40 km/h) plus 0.2 % ... 2 %: the last cut of the journey then falls just short of the destination"""
+    import h3
+    from nrel.hive.util.h3_ops import H3Ops
+
+    S = sites()
+    a = S["A"]
+    lat, lon = h3.h3_to_geo(a)
+    far = h3.geo_to_h3(lat + 0.2, lon + 0.02, 15)  # ~22 km away
+    out = [a]
+    for st in GRAZING_STEPS:
+        if only_step is not None and st != only_step:
+            continue  # each destination is driven to under the step length it was laid out for (journeys of 2-4 steps)
+        d = 40.0 * st / 3600.0
+        for m in (1, 2, 3):
+            for eps in (0.002, 0.005, 0.009, 0.02):
+                want = m * d * (1 + eps)
+                total = H3Ops.great_circle_distance(a, far)
+                if want >= total:
+                    continue
+                la, lo = h3.h3_to_geo(far)
+                f = want / total
+                cell = h3.geo_to_h3(lat + (la - lat) * f, lon + (lo - lon) * f, 15)
+                if cell not in out:
+                    out.append(cell)
+    return out
+
+
 def position_cells(rn, spec) -> List[str]:
+    if spec[0] == "haversine" and len(spec) > 1 and spec[1] == "grazing":
+        return grazing_cells()
     if spec[0] == "haversine":
         S = sites()
         return sorted({S[k] for k in ("A", "N1", "X1", "M1", "F1")})
@@ -157,10 +191,11 @@ def _shard(shard) -> Dict[str, Any]:
     rn = build(spec)
     cfg = make_config(step=step)
     env = Environment(config=cfg, mechatronics=_mechatronics(), chargers=_chargers(), reporter=CapturingReporter())
-    cells = position_cells(rn, spec)
+    cells = position_cells(rn, spec) if not (len(spec) > 1 and spec[1] == "grazing") else grazing_cells(step)
     out = {"journeys": 0, "steps": 0, "outcomes": {}, "findings": {}, "samples": [], "nontrivial": 0}
     i = 0
-    for o, d in itertools.product(cells, cells):
+    pairs = [(cells[0], d2) for d2 in cells[1:]] if (len(spec) > 1 and spec[1] == "grazing") else itertools.product(cells, cells)
+    for o, d in pairs:
         i += 1
         if i % nparts != part:
             continue
@@ -198,6 +233,9 @@ def c06_enum(c: Check):
         for st in steps:
             for kind in KINDS:
                 shards += [(spec, st, kind, p, nparts) for p in range(nparts)]
+    for st in GRAZING_STEPS:
+        for kind in KINDS:
+            shards.append((("haversine", "grazing"), st, kind, 0, 1))
     res = pmap(_shard, rotate(shards, seed()))
     for r in res:
         for sig, msg, rp in r["findings"]:
